@@ -40,6 +40,15 @@ def run(ctx):
                      {"a": "expire", "g": 0, "q": 0, "b": "none"},
                      {"a": "inject", "g": 1, "q": q, "b": "none"}, {"a": "done", "g": 1, "q": 0, "b": b}]
             stim.append({"t": len(stim) + 1, "reqs": REQS, "steps": steps, "hijack": len(stim) % 2 == 1})
+            # the lifetime elapses but no sweep has run when the message ID is used again, then duplicated - before and after a sweep
+            steps = [{"a": "inject", "g": 1, "q": q, "b": "none"}, {"a": "done", "g": 1, "q": 0, "b": b},
+                     {"a": "lapse", "g": 0, "q": 0, "b": "none"},
+                     {"a": "inject", "g": 1, "q": q, "b": "none"}, {"a": "done", "g": 1, "q": 0, "b": "piggy"},
+                     {"a": "inject", "g": 2, "q": q, "b": "none"}, {"a": "done", "g": 2, "q": 0, "b": "piggy"},
+                     {"a": "expire", "g": 0, "q": 0, "b": "none"},
+                     {"a": "inject", "g": 1, "q": q, "b": "none"}, {"a": "done", "g": 1, "q": 0, "b": b},
+                     {"a": "inject", "g": 2, "q": q, "b": "none"}, {"a": "done", "g": 2, "q": 0, "b": "piggy"}]
+            stim.append({"t": len(stim) + 1, "reqs": REQS, "steps": steps, "hijack": len(stim) % 2 == 1})
     if not stim:
         raise vf.Machinery("no behaviours generated")
     spath = os.path.join(ctx.work, "stimuli.ndjson")
@@ -55,6 +64,7 @@ def run(ctx):
     ctx.cov["log_events_validated"] = sum(len(t["log"]) for t in traces)
     ctx.cov["handler_runs"] = sum(1 for t in traces for e in t["log"] if e["e"] == "run")
     ctx.cov["replies_from_cache"] = sum(1 for t in traces for e in t["log"] if e["e"] == "reply" and not e["ran"])
+    ctx.cov["lifetime_elapsed_without_sweep"] = sum(1 for t in traces for e in t["log"] if e["e"] == "lapse")
     ctx.cov["expiries"] = sum(1 for t in traces for e in t["log"] if e["e"] == "expire")
     for clause, idxs in sorted(bad.items()):
         ts = [traces[i] for i in idxs]
